@@ -258,6 +258,32 @@ async fn one_config(a: Args, idx: usize, proto: Proto, transport: Transport) -> 
             None => rep.inconclusive("descriptor/task counts never settled after a batch"),
         }
     }
+    // volume: more ended flows than any bounded queue, table or counter in the relay is likely to hold (320 small flows,
+    // 16 at a time, ended by the target / by the application in turns), then the same accounting
+    {
+        let n = 320usize;
+        let mut specs = Vec::new();
+        for k in 0..n {
+            next_id += 1;
+            specs.push(FlowSpec { id: (idx as u64) << 20 | next_id, kind: README_KINDS[k % 4], c2s: 600, s2c: 900, write_c: 600, write_s: 900, pause_ms: 0, pattern: Pattern::RequestResponse, closer: if k % 2 == 0 { Closer::TargetAfterAnswer } else { Closer::AppAfterAll } });
+        }
+        let results = run_batch(reg.clone(), &d, target.port, specs, 16, Duration::from_secs(30)).await;
+        let ended = results.iter().filter(|(_, v)| v.symptom.is_none()).count();
+        rep.mon("flows_ended_in_the_volume_batch", ended as u64);
+        rep.case(&(idx, "volume"), ended > 0);
+        match settle(&pair, Duration::from_secs(2), Duration::from_secs(30)).await {
+            Some(mut u) => {
+                let t0 = Instant::now();
+                while leak_amount(&u, &baseline) > 0 && t0.elapsed() < Duration::from_secs(40) {
+                    tokio::time::sleep(Duration::from_millis(500)).await;
+                    u = usage(&pair);
+                }
+                rep.mon("resource_samples_settled", 1);
+                batches.push((batches.iter().map(|b| b.0).sum::<usize>() + n, u));
+            }
+            None => rep.inconclusive("descriptor/task counts never settled after the volume batch"),
+        }
+    }
     // a leak that grows with the number of flows is a violation; a constant offset is warm-up state
     if batches.len() >= 2 {
         let (n1, u1) = &batches[0];
@@ -395,6 +421,96 @@ async fn datagram_bindings(a: Args, idx: usize, proto: Proto, transport: Transpo
     rep
 }
 
+/// Bindings that fail while they are being opened: the application sends datagrams that no longer fit once the protocol's
+/// header is in front (the very first send of the new binding fails), forty times from one socket. Every failed attempt must
+/// give back what it had opened.
+async fn failing_bindings(a: Args, idx: usize, proto: Proto, transport: Transport) -> Report {
+    use super::c02::{make_payload, socks5_udp, start_udp_target};
+    let mut rep = Report::new();
+    let mut rng = Rng::derive(a.seed, 0xC15F, idx as u64);
+    let cfg = Cfg::random(&mut rng, proto, if matches!(proto, Proto::Vmess(_)) { 1 } else { 0 });
+    let dir = work_dir(&a, &format!("c15f-{idx}"));
+    let d = Deploy::new(cfg, transport, true, 2, &dir);
+    let cfgname = format!("{}|{}|failing-bindings", proto.name(), if matches!(proto, Proto::Ss(_)) { "udp" } else { transport.name() });
+    let (dd, tag) = (d.clone(), format!("c15f-{idx}"));
+    let mut pair = match tokio::task::spawn_blocking(move || start_pair(&dd, &tag)).await.unwrap() {
+        Ok(p) => p,
+        Err(e) => {
+            rep.inconclusive(format!("{cfgname}: nodes do not start: {}", e.lines().next().unwrap_or("")));
+            return rep;
+        }
+    };
+    let nonce = rng.next_u64();
+    let Ok(target) = start_udp_target(nonce, 0, 1, false).await else {
+        rep.inconclusive("udp target");
+        return rep;
+    };
+    let mut buf = vec![0u8; 70000];
+    // warm-up with an ordinary exchange, then the baseline
+    let w = tokio::net::UdpSocket::bind("127.0.0.1:0").await.unwrap();
+    let mut warm = false;
+    for seq in 0..3u32 {
+        let _ = w.send_to(&socks5_udp("127.0.0.1", target.port, &make_payload(nonce, 1, 0, seq, 100, 0)), ("127.0.0.1", d.client_port)).await;
+        if tokio::time::timeout(Duration::from_millis(1500), w.recv_from(&mut buf)).await.is_ok() {
+            warm = true;
+            break;
+        }
+    }
+    if !warm {
+        rep.inconclusive(format!("{cfgname}: the datagram relay does not work (judged by C02)"));
+        return rep;
+    }
+    let Some(baseline) = settle(&pair, Duration::from_secs(1), Duration::from_secs(15)).await else {
+        rep.inconclusive("baseline never settled");
+        return rep;
+    };
+    let n = 40u32;
+    let app = tokio::net::UdpSocket::bind("127.0.0.1:0").await.unwrap();
+    let mut sent = 0u64;
+    for seq in 0..n {
+        // 65497 bytes of payload + 10 bytes of SOCKS5 header = the largest datagram the application can send at all
+        let size = [65497usize, 65490, 65480, 65470][seq as usize % 4];
+        if app.send_to(&socks5_udp("127.0.0.1", target.port, &make_payload(nonce, 2, 0, seq, size, 0)), ("127.0.0.1", d.client_port)).await.is_ok() {
+            sent += 1;
+        }
+        tokio::time::sleep(Duration::from_millis(25)).await;
+        rep.evaluations += 1;
+    }
+    rep.mon("oversize_datagrams_that_open_a_binding", sent);
+    match settle(&pair, Duration::from_secs(2), Duration::from_secs(30)).await {
+        None => rep.inconclusive("descriptor counts never settled after the failing bindings"),
+        Some(u) => {
+            rep.mon("resource_samples_settled", 1);
+            let held = (u.client.udp as i64 - baseline.client.udp as i64).max(0) + (u.client.tcp as i64 - baseline.client.tcp as i64).max(0);
+            let tasks = u.client_tasks.zip(baseline.client_tasks).map(|(x, y)| x as i64 - y as i64).unwrap_or(0);
+            rep.extra.insert(format!("resources:{cfgname}"), json!({"oversize_datagrams": sent, "client_descriptors_above_baseline": held, "client_tasks_above_baseline": tasks, "after": diff(&u, &baseline)}));
+            // one binding for the application's socket may legitimately exist; anything that grows with the failures does not
+            if held > 4 || tasks > 4 {
+                rep.violation(format!("C15|{}|client-keeps-what-failed-bindings-had-opened", cfgname), format!("{cfgname}: after {sent} datagrams that are too large to be relayed (each opens a binding whose first send fails) the client holds {held} descriptors and {tasks} tasks above its baseline"), json!({"seed": a.seed, "deploy": d.describe(), "baseline": format!("{:?}", baseline), "after": diff(&u, &baseline)}));
+            }
+        }
+    }
+    // the relay still serves
+    let mut served = false;
+    for seq in 100..103u32 {
+        let _ = w.send_to(&socks5_udp("127.0.0.1", target.port, &make_payload(nonce, 1, 0, seq, 100, 0)), ("127.0.0.1", d.client_port)).await;
+        if tokio::time::timeout(Duration::from_millis(1500), w.recv_from(&mut buf)).await.is_ok() {
+            served = true;
+            break;
+        }
+    }
+    rep.case(&(idx, "failing-bindings"), served);
+    for (who, node) in [("client", &mut pair.client), ("server", &mut pair.server)] {
+        if !node.alive() {
+            rep.violation(format!("C15|{}|{}-exited", cfgname, who), format!("{who} exited"), json!({"log": node.log_tail(10)}));
+        }
+    }
+    drop(target);
+    drop(pair);
+    let _ = std::fs::remove_dir_all(&dir);
+    rep
+}
+
 pub async fn run(a: &Args) -> Report {
     // one cipher per protocol over every transport (quick: a rotating subset); all ciphers over tcp in thorough
     let protos = [Proto::Ss(refimpl::ss::Method::B3Aes128Gcm), Proto::Ss(refimpl::ss::Method::ChaCha20IetfPoly1305), Proto::Vmess(3), Proto::Trojan];
@@ -439,6 +555,17 @@ pub async fn run(a: &Args) -> Report {
         hs.push(tokio::spawn(async move {
             let _g = sem.acquire_owned().await.unwrap();
             datagram_bindings(a, 500 + k, p, t).await
+        }));
+    }
+    let fail_cfgs = [(Proto::Ss(refimpl::ss::Method::B3Aes128Gcm), Transport::Tcp), (Proto::Ss(refimpl::ss::Method::Aes256Gcm), Transport::Tcp), (Proto::Vmess(3), Transport::Tcp), (Proto::Trojan, Transport::Tls)];
+    for (k, (p, t)) in fail_cfgs.into_iter().enumerate() {
+        if only.is_some() || (!a.thorough && (k + a.seed as usize) % 2 != 0) {
+            continue;
+        }
+        let (a, sem) = (a.clone(), sem.clone());
+        hs.push(tokio::spawn(async move {
+            let _g = sem.acquire_owned().await.unwrap();
+            failing_bindings(a, 600 + k, p, t).await
         }));
     }
     let mut rep = Report::new();
